@@ -118,6 +118,9 @@ pub enum Event {
     ApplyRelease(u32),
     /// advance the virtual clock
     Advance(u64),
+    /// timed mode: virtual time jumps to the earliest timer deadline of a live node and that
+    /// node takes its turn (its tick fires)
+    Tick,
     /// force snapshot creation on node n (InternalEvent::CreateSnapshotEvent)
     Snapshot(u32),
     /// learner `n` (not yet part of the cluster) starts and joins via the current leader
@@ -156,6 +159,10 @@ pub struct Opts {
     pub allow_override: bool,
     pub max_pending_writes: usize,
     pub catchup_threshold: u64,
+    /// timed mode: extra election timeout of the i-th node (by ascending id), so that the order
+    /// in which followers time out is decided by the configuration of the run
+    #[serde(default)]
+    pub election_offsets_ms: Vec<u64>,
 }
 
 impl Default for Opts {
@@ -180,6 +187,7 @@ impl Default for Opts {
             allow_override: true,
             max_pending_writes: 10_000,
             catchup_threshold: 1,
+            election_offsets_ms: vec![],
         }
     }
 }
@@ -208,8 +216,12 @@ impl Opts {
         c.cluster.node_id = id;
         c.cluster.db_root_dir = scratch.join(format!("db{id}"));
         c.cluster.log_dir = scratch.join(format!("log{id}"));
-        c.raft.election.election_timeout_min = self.election_min_ms;
-        c.raft.election.election_timeout_max = self.election_min_ms + 1;
+        let mut all: Vec<u32> = self.voters.iter().chain(self.learners.iter()).chain(self.joiners.iter()).copied().collect();
+        all.sort_unstable();
+        let pos = all.iter().position(|x| *x == id).unwrap_or(0);
+        let off = self.election_offsets_ms.get(pos).copied().unwrap_or(0);
+        c.raft.election.election_timeout_min = self.election_min_ms + off;
+        c.raft.election.election_timeout_max = self.election_min_ms + off + 1;
         c.raft.replication.rpc_append_entries_clock_in_ms = self.heartbeat_ms;
         c.raft.replication.append_entries_max_entries_per_replication = self.cap;
         c.raft.batching.max_batch_size = self.max_batch;
@@ -294,6 +306,10 @@ pub struct NodeView {
     pub queues: Option<[usize; 7]>,
     pub notified_leader: Option<(u32, u64)>,
     pub lease_valid: bool,
+    /// remaining lease validity in 100 ms buckets (timed mode; 0 otherwise)
+    pub lease_left: u64,
+    /// time until this node's timer fires, in 100 ms buckets (timed mode; 0 otherwise)
+    pub deadline_left: u64,
     pub fatal: bool,
     /// membership-change entries in the log: (index, description)
     pub configs: Vec<(u64, String)>,
@@ -403,6 +419,17 @@ impl SimNode {
                 shared.hard_state.current_term,
                 d_engine_core::now_ms(),
             ),
+            lease_left: if self.timed {
+                let (t, now) = (shared.hard_state.current_term, d_engine_core::now_ms());
+                (0..=200u64).take_while(|k| shared.lease.is_valid_for_leader(t, now + k * 100)).count() as u64
+            } else {
+                0
+            },
+            deadline_left: if self.timed {
+                self.raft.verif_next_deadline().saturating_duration_since(tokio::time::Instant::now()).as_millis() as u64 / 100
+            } else {
+                0
+            },
             fatal: self.fatal,
             configs: entries.iter().filter_map(|e| config_of(e).map(|c| (e.index, c))).collect(),
         }
@@ -515,6 +542,10 @@ pub struct Cluster {
     pub armed_timers: BTreeSet<u32>,
     /// membership view of a node at the moment it crashed / stopped (C28)
     pub membership_at_stop: BTreeMap<u32, Vec<(u32, i32, i32)>>,
+    pub t0: tokio::time::Instant,
+    /// the path ran into a schedule the harness cannot represent (e.g. a voter whose own
+    /// election timer is due while it is asked for its vote): not expanded, not a verdict
+    pub stuck: Option<String>,
 }
 
 async fn quiesce() {
@@ -570,6 +601,8 @@ impl Cluster {
             history: vec![],
             armed_timers: BTreeSet::new(),
             membership_at_stop: BTreeMap::new(),
+            t0: tokio::time::Instant::now(),
+            stuck: None,
         };
         d_engine_core::verif_clock::set(Some(0));
         for id in ids {
@@ -603,6 +636,8 @@ impl Cluster {
             self.net.clone(),
         )
         .await;
+        let mut node = node;
+        node.timed = self.opts.timed;
         if self.opts.gated_sm.contains(&id) {
             node.sm.gated.store(true, Ordering::SeqCst);
         }
@@ -916,9 +951,18 @@ impl Cluster {
     // apply one event
     // ------------------------------------------------------------------------------------
 
+    /// timed mode: the lease clock (now_ms) follows tokio's paused clock
+    pub fn sync_clock(&mut self) {
+        if self.opts.timed {
+            self.clock_ms = tokio::time::Instant::now().saturating_duration_since(self.t0).as_millis() as u64;
+            d_engine_core::verif_clock::set(Some(self.clock_ms));
+        }
+    }
+
     pub async fn apply(&mut self, ev: &Event) -> Res<()> {
         self.events_applied += 1;
         self.history.push(ev.clone());
+        self.sync_clock();
         match ev {
             Event::Timeout(id) | Event::Heartbeat(id) => {
                 if self.election.is_some() {
@@ -947,7 +991,14 @@ impl Cluster {
                 let cand = el.node;
                 let req = self.net.0.lock().unwrap().pending_vote.as_ref().unwrap().req;
                 let mut response = None;
-                if *ans != VoteAns::Lose && matches!(self.slots.get(peer), Some(Slot::Up(_))) {
+                if self.opts.timed && *ans != VoteAns::Lose {
+                    if let Some(n) = self.node(*peer) {
+                        if n.raft.verif_next_deadline() <= tokio::time::Instant::now() && !n.fatal {
+                            self.stuck = Some(format!("voter {peer}'s own timer is due while it is asked for its vote"));
+                        }
+                    }
+                }
+                if self.stuck.is_none() && *ans != VoteAns::Lose && matches!(self.slots.get(peer), Some(Slot::Up(_))) {
                     let (tx, mut rx) = MaybeCloneOneshot::new();
                     let sent = self
                         .node(*peer)
@@ -1246,6 +1297,30 @@ impl Cluster {
                     self.settle(id).await?;
                 }
             }
+            Event::Tick => {
+                if self.election.is_some() {
+                    return Err("tick during election".into());
+                }
+                let mut best: Option<(tokio::time::Instant, u32)> = None;
+                for (id, s) in &self.slots {
+                    if let Slot::Up(n) = s {
+                        if n.fatal {
+                            continue;
+                        }
+                        let d = n.raft.verif_next_deadline();
+                        if best.map(|b| d < b.0).unwrap_or(true) {
+                            best = Some((d, *id));
+                        }
+                    }
+                }
+                let Some((d, id)) = best else { return Err("no live node to tick".into()) };
+                let now = tokio::time::Instant::now();
+                if d > now {
+                    tokio::time::advance(d - now).await;
+                }
+                self.sync_clock();
+                self.settle(id).await?;
+            }
             Event::Snapshot(id) => {
                 let n = self.node(*id).ok_or("node not up")?;
                 let _ = n.internal_tx.send(d_engine_core::InternalEvent::CreateSnapshotEvent);
@@ -1326,6 +1401,7 @@ impl Cluster {
             self.poll_joins().await?;
         }
         self.refresh_directory();
+        self.sync_clock();
         Ok(())
     }
 
@@ -1498,7 +1574,18 @@ impl Cluster {
         let cl: Vec<(u32, &Option<Op>, &Option<(String, RPolicy)>, &ClientOutcome)> =
             self.clients.iter().map(|c| (c.node, &c.write, &c.read, &c.outcome)).collect();
         let oracle_fp = self.oracle.fingerprint();
-        let clock = if self.opts.timed { self.clock_ms } else { 0 };
+        // timed mode: absolute time is not part of the state; what matters is how far every
+        // timer, lease and pending request is from its deadline (in the node views) and how old
+        // the pending client requests are
+        let clock: Vec<u64> = if self.opts.timed {
+            self.clients
+                .iter()
+                .filter(|c| c.outcome == ClientOutcome::Pending)
+                .map(|c| self.clock_ms.saturating_sub(c.invoked_ms) / 100)
+                .collect()
+        } else {
+            vec![]
+        };
         let armed: Vec<u32> = self.armed_timers.iter().copied().collect();
         feed(&|h| {
             armed.hash(h);
